@@ -5,6 +5,8 @@ M2   no 64-bit cost / area / demand narrowed to int implicitly: results of libra
      any other long long expression (listed exceptions; a remainder modulo an int is accepted)
 M3   inventory of 32-bit products of two non-constant operands: each is listed with a bound argument
 M4   std::accumulate-style folds use an initial value at least as wide as the elements they add up
+AS   stated beliefs: an assert(a != b) contradicts the function's own handling of a sentinel when both a and b are tested
+     against the same literal elsewhere in the function (both may hold it at once), unless the assert admits that case
 E1   'last element' indices: size()-1 evaluated unsigned without a non-emptiness guard; a function that can
      return size()-1 == -1 for an empty container must not feed a subscript
 E2   loops with a computed step: the step is provably non-zero (or listed with the reason)
@@ -51,6 +53,7 @@ def run(ctx, rep, tier):
     rep.rule("M2", "no 64-bit cost/area/demand implicitly narrowed to int (listed exceptions)", 4)
     rep.rule("M3", "every 32-bit product of two non-constant operands is listed with a bound argument", 5)
     rep.rule("M4", "fold accumulators are as wide as the elements", 3)
+    rep.rule("AS", "no assert(a != b) that excludes a sentinel value both a and b are allowed to take (expected count 0)", 0)
     rep.rule("E1", "size()-1 style last-element indices are guarded against the empty container", 1)
     rep.rule("E2", "computed loop steps are provably non-zero or listed", 5)
     rep.rule("CTRL", "positive controls (selftest/c07_controls.cpp)", 4)
@@ -86,7 +89,7 @@ def run(ctx, rep, tier):
             return ctx.__class__.guards(self, *a, **k)
     sink = Sink()
     scan(CCtx(), ctl, sink, {"products_32bit": {}, "narrowing_exceptions": {}, "narrowings_64_to_32": {}, "loop_steps": {}}, control=True)
-    for rid, n in (("M1", 1), ("M2", 1), ("E1", 2), ("E2", 1)):
+    for rid, n in (("M1", 1), ("M2", 1), ("AS", 1), ("E1", 2), ("E2", 1)):
         got = sum(1 for r, _w in sink.v if r == rid)
         if got >= n:
             rep.holds("CTRL", "selftest/c07_controls.cpp", None, "rule %s reports its %d seeded control(s)" % (rid, n), "%d reported" % got)
@@ -142,8 +145,10 @@ def scan(ctx, prog, rep, cfgd, control):
                             seen.add(key)
                             n_narrow += 1
                             ek = skey(f, canon(s))
-                            if ek in cfgd["narrowing_exceptions"]:
-                                rep.holds("M2", x, f, "listed narrowing of %s" % pretty(canon(s)), cfgd["narrowing_exceptions"][ek])
+                            ck = "*|" + short(ci["qname"])
+                            if ek in cfgd["narrowing_exceptions"] or ck in cfgd["narrowing_exceptions"]:
+                                rep.holds("M2", x, f, "listed narrowing of %s" % pretty(canon(s)),
+                                          cfgd["narrowing_exceptions"].get(ek) or cfgd["narrowing_exceptions"][ck])
                             else:
                                 rep.violation("M2", x, f, "%s result of %s narrowed to int" % (ts, pretty(canon(s))[:70]),
                                               "costs and areas are computed in 64 bits because they exceed 2^31 at the supported magnitudes",
@@ -189,6 +194,7 @@ def scan(ctx, prog, rep, cfgd, control):
         rep.extra["narrowing_conversions_examined"] = n_narrow
     if not control and not any(i["rule"] == "M1" for i in rep.instances):
         rep.holds("M1", "src/**", None, "no int product widened afterwards", "%d functions scanned" % len(prog.funcs))
+    check_as(ctx, prog, rep, control)
     check_e1(ctx, prog, rep, control)
     check_e2(ctx, prog, rep, cfgd, control)
 
@@ -412,6 +418,54 @@ def sign_guarded(ctx, f, node, idx):
                (gc[1] == "==" and lit == "-1" and not val) or (gc[1] == "!=" and lit == "-1" and val) or (gc[1] == ">" and lit == "-1" and val):
                 return True
     return False
+
+
+# ---- AS ---------------------------------------------------------------------------------
+
+def check_as(ctx, prog, rep, control):
+    """Engler-style contradiction between stated beliefs. `assert(a != b)` says a and b never coincide; tests `a == K` and
+    `b == K` against the same literal elsewhere in the function say each may be the sentinel K - so may both, and then the
+    assertion aborts (with assertions enabled) on a state the function otherwise handles."""
+    from ..expr import is_noreturn_call
+    n = 0
+    for f in prog.all_funcs(with_lambdas=False):
+        if f.body is None:
+            continue
+        asserts = []
+        sent = {}
+        for x in walk(f.body):
+            k = x.get("kind")
+            if k == "ConditionalOperator":
+                ch = children(x)
+                if len(ch) == 3 and (is_noreturn_call(ch[2]) or is_noreturn_call(ch[1])):
+                    asserts.append((x, canon(ch[0])))
+            if k == "BinaryOperator" and x.get("opcode") in ("==", "!="):
+                c = canon(x)
+                for a, b in ((c[2], c[3]), (c[3], c[2])):
+                    if a[0] == "var" and b[0] == "lit":
+                        sent.setdefault(a[:2], set()).add(str(b[1]))
+        for x, c in asserts:
+            n += 1
+            if not (c[0] == "bin" and c[1] == "!=" and c[2][0] == "var" and c[3][0] == "var"):
+                continue
+            common = sent.get(c[2][:2], set()) & sent.get(c[3][:2], set())
+            if not common:
+                continue
+            # guarded asserts (the assert itself sits under a test excluding the sentinel) are fine
+            gs = ctx.guards(f, x) or ctx.guards(f, children(x)[0]) or []
+            excl = any(gc[0] == "bin" and gc[1] in ("==", "!=") and gc[3][0] == "lit" and gc[2][:2] in (c[2][:2], c[3][:2]) and
+                       ((gc[1] == "!=" and val is True) or (gc[1] == "==" and val is False)) for gc, val, _a, _b in gs)
+            if excl:
+                continue
+            kk = sorted(common)[0]
+            rep.violation("AS", x, f, "assert(%s != %s)" % (c[2][2], c[3][2]),
+                          "the same function tests %s == %s and %s == %s: both may hold the sentinel %s at once, and the assertion then aborts "
+                          "(assertions are enabled in the default build)" % (c[2][2], kk, c[3][2], kk, kk),
+                          key="%s|assert excludes a shared sentinel" % f.short)
+    if hasattr(rep, "extra"):
+        rep.extra["asserts_examined"] = n
+    if not control and not any(i["rule"] == "AS" for i in rep.instances):
+        rep.holds("AS", "src/**", None, "no assert(a != b) excludes a sentinel that both operands may hold", "%d assertions examined" % n)
 
 
 # ---- E2 ---------------------------------------------------------------------------------
